@@ -70,16 +70,21 @@ fn observe(db: &Database, id: TableId, arity: usize) -> J {
            "ver": [ver.major.index(), ver.minor.index()], "est": db.estimate_size(id, None)})
 }
 
-fn run_sorted(ops: &[J], out: &mut TraceOut) {
+fn run_sorted(ops: &[J], out: &mut TraceOut, unsorted: bool) {
     let mut db = Database::new();
     let table = SortedWritesTable::new(
         1,
         3,
-        Some(ColumnId::new(2)),
+        if unsorted { None } else { Some(ColumnId::new(2)) },
         vec![],
-        Box::new(|_, cur, new, out| {
+        Box::new(move |_, cur, new, out| {
             if new[1] > cur[1] {
-                out.extend_from_slice(new);
+                if unsorted {
+                    // a combining merge: the larger value with the timestamp of the row it replaces
+                    out.extend_from_slice(&[new[0], new[1], cur[2]]);
+                } else {
+                    out.extend_from_slice(new);
+                }
                 true
             } else {
                 false
@@ -196,12 +201,13 @@ pub fn main(args: &[String]) -> Result<(), String> {
     }
     let outp = arg(args, "--out").ok_or("--out")?;
     let threads = arg_usize(args, "--threads", 1);
+    let unsorted = args.iter().any(|a| a == "--unsorted");
     let mut out = TraceOut::create(outp)?;
     let pool = ThreadPool::new(threads);
     pool.install(|| -> Result<(), String> {
         if let Some(path) = arg(args, "--replays") {
             for r in read_lines(path)? {
-                run_sorted(r.as_array().ok_or("replay must be a list")?, &mut out);
+                run_sorted(r.as_array().ok_or("replay must be a list")?, &mut out, unsorted);
             }
         }
         if let Some(path) = arg(args, "--uf-replays") {
@@ -237,7 +243,7 @@ pub fn main(args: &[String]) -> Result<(), String> {
                 }
                 ops.push(o);
             }
-            run_sorted(&ops, &mut out);
+            run_sorted(&ops, &mut out, unsorted);
         }
         for _ in 0..arg_usize(args, "--uf-random", 0) {
             let mut ops = random_ops(&mut rng, arg_usize(args, "--len", 60) / 2, true);
